@@ -99,6 +99,57 @@ def encrypted_extents(chk, thorough):
     print("  %d encrypted-extent cases" % len(runs), flush=True)
 
 
+def big_trailing_case(rec, cfg, total, junk):
+    from vlib import rawdrv, agent as ag
+    from checks import c09
+    a = rec.n
+    s = rawdrv.RawSession(rec, cfg)
+    agent = ag.Agent(engine=cfg.engine or None) if cfg.engine else ag.Agent()
+    w, exc = s.send("get", ["1.3.6.1.2.1.1.1.0"])
+    if w is not None:
+        req = ag.Request(cfg, w)
+        d = c09.sized_reply(agent, cfg, req, total)
+        s.inject(bytes(d) + bytes((0x55 + 7 * i) % 256 for i in range(junk)))
+        s.recv("get")
+    s.close()
+    return a, rec.n
+
+
+def big_trailing(chk, thorough):
+    """octets after the top-level message, in datagrams around and beyond what one receive takes (4080 octets): however the receive
+    path obtains the datagram, the decoder is handed all of it - a message followed by anything is rejected, whatever its size"""
+    from vlib import scripts
+    std = scripts.std_cfgs()
+    rec = trace.Recorder("c16big")
+    runs = []
+    for cn in (("v2c", "v3-md5") if not thorough else ("v1", "v2c", "v3-noauth", "v3-md5", "v3-sha1-aes")):
+        # (a message of EXACTLY 4080 octets followed by more is left out: one receive takes 4080 octets, the surplus is cut off by the
+        # kernel before the library can see it - the decoder is handed the message alone; datagrams above 4080 octets are outside the
+        # domain of the pinned library, see DESIGN.md 0a.5)
+        for total in (3000, 4000, 4079, 4081, 4153, 4953, 9000):
+            for junk in (1, 16, 300):
+                if not thorough and (total + junk) % 2 and total not in (4153, 4953):
+                    continue
+                a, b = big_trailing_case(rec, std[cn], total, junk)
+                runs.append((a, b, dict(cfg=cn, total=total, junk=junk)))
+                chk.case(("big-trailing", cn, total, junk), nontrivial=True)
+    rec.close()
+    v = trace.validate_parallel("TraceSession.tla", "TraceSession.cfg", rec.events, [(a, b) for a, b, _ in runs], k=8, name="c16big")
+    for i, r in enumerate(v["results"]):
+        chk.add_tlc(r, "TraceSession(c16big)#%d" % i)
+    chk.traces += len(runs)
+    ri = 0
+    for idx in v["fails"]:
+        while runs[ri][1] <= idx:
+            ri += 1
+        a, b, info = runs[ri]
+        ev = rec.events[idx]
+        chk.violation(dict(kind="big-trailing", over_4080=info["total"] + info["junk"] > 4080, ev=ev["ev"], got=ev.get("exc") or "value"),
+                      "%s: reply of %d octets followed by %d more octets in the same datagram: %s %s" % (info["cfg"], info["total"], info["junk"], ev["ev"],
+                      ev.get("exc") or json.dumps(ev.get("res"))[:100]), dict(kind="big", info=info))
+    print("  %d large-datagram cases" % len(runs), flush=True)
+
+
 def run(tier):
     chk = Check("C16", tier)
     thorough = tier == "thorough"
@@ -193,6 +244,7 @@ def run(tier):
         if info["n"] > len(info["first"]):
             chk.violation(dict(kind=evname, more=True), "%d more failing records in batch" % (info["n"] - len(info["first"])), dict(kind=evname))
     encrypted_extents(chk, thorough)
+    big_trailing(chk, thorough)
     chk.sample(dict(kind="ext-record", rec={k: (x if k != "b" else x[:24]) for k, x in rec.events[0]["recs"][9].items()}))
     chk.sample(dict(kind="message-mutant", mutant={k: (x if k != "b" else x[:40]) for k, x in muts[1234].items()}))
     return chk.finish()
@@ -201,6 +253,17 @@ def run(tier):
 def replay(path):
     d = json.load(open(path))
     r = d["replay"]
+    if r.get("kind") == "big":
+        from vlib import scripts
+        info = r["info"]
+        rec = trace.Recorder("c16-replay")
+        big_trailing_case(rec, scripts.std_cfgs()[info["cfg"]], info["total"], info["junk"])
+        v = trace.validate("TraceSession.tla", "TraceSession.cfg", rec.close())
+        if v["accepted"] and not v["fails"]:
+            print("replay: accepted")
+            return 0
+        print("VIOLATION property=C16 replay=%s" % path)
+        return 1
     if r.get("kind") == "enc":
         from vlib import scripts
         info = r["info"]
